@@ -434,6 +434,13 @@ func (r *Run) known() map[string]string {
 
 // Finish confirms violations, writes evidence, prints the verdict and exits.
 func (r *Run) Finish() {
+	if ents, err := os.ReadDir("/proc/self/fd"); err != nil || len(ents) > 1000 {
+		// files abandoned by the code under test are closed when the collector
+		// finds them: make room for the evidence and replay files
+		runtime.GC()
+		runtime.GC()
+		time.Sleep(50 * time.Millisecond)
+	}
 	known := r.known()
 	var unlisted []V
 	var knownSeen []string
